@@ -149,6 +149,12 @@ def run(ctx):
                        'registered timer none of the others is earlier than, and no deadline exactly when nothing is registered; the '
                        'timer it names is then taken off, as the runner does, until none is left', floor=15)
     ctx.section(earliest)
+    ctx.rule('R-C04i', 'unless unregistered first: every returning path of iv_timer_unregister (helpers inlined) has taken the timer out of '
+                       'the place it was kept in -- the heap (timer count lowered) or the batch of expired timers that the runner is '
+                       'working through (its list_expired node unlinked) --, and the runner calls the handler only of a timer that it read '
+                       'from the batch after the latest user code ran (never through a pointer saved across a handler call): '
+                       'what a handler cancelled is not run', floor=2)
+    ctx.section(cancelled)
 
 
 def _method_poll(e):
@@ -160,6 +166,66 @@ def _deadline_param(f):
     if len(ps) != 1:
         raise AnalysisBroken('%s: expected exactly one struct timespec * parameter (the deadline), found %d' % (f.name, len(ps)))
     return ps[0]
+
+
+def _deadline_kind(o):
+    """what a deadline value comes from: the address of a time value of the function's own (or an immutable one with static
+    storage) -- "do not wait" --, the loop's deadline query, or something else"""
+    r = strip(o)
+    v_ = strip(r['e']) if isinstance(r, dict) and r.get('k') == 'addr' else None
+    if isinstance(v_, dict) and v_.get('k') == 'var' and v_.get('record') == 'timespec' and not v_.get('ptr') and \
+            (v_.get('vk') == 'local' or (v_.get('vk') in ('global', 'staticlocal') and 'const' in (v_.get('type') or '').split())):
+        return 'zeroed-local'
+    if isinstance(r, dict) and r.get('k') == 'call' and r.get('callee') == 'iv_get_soonest_timeout':
+        return 'soonest'
+    return 'other:' + canon(o)
+
+
+REQUEST_STOP = ('iv_get_soonest_timeout',)
+
+
+def _request(root, g):
+    """The requested deadline of a context that waits (calls method->poll): (name of the pointer that holds it, context
+    to evaluate, [(definition event, kinds of its origins)] or None).  It is the one `struct timespec *` parameter of the
+    root -- the caller computed it --, or, when the root has none, the pointer local of the context that is assigned the
+    answer of the loop's deadline query (iv_get_soonest_timeout): the root computes the deadline itself.  In that case the
+    definitions of the local from the deadline sources (the query, a time value of the function's own) *are* the request:
+    in the returned copy of the context they are neutral events and the local reads like a parameter; any other
+    definition of it stays and is evaluated (and is judged by R-C04e deadline-definitions)."""
+    ps = [p['name'] for p in root.params if p.get('ptr') and p.get('record') == 'timespec']
+    if len(ps) == 1:
+        return ps[0], g, None
+    if len(ps) > 1:
+        raise AnalysisBroken('%s: expected at most one struct timespec * parameter (the deadline), found %d' % (root.name, len(ps)))
+    cached = getattr(g, '_c04_request', None)
+    if cached is not None:
+        return cached
+    org = h.Origins(g)
+    defs = {}
+    for e in g.events():
+        if e['ev'] == 'store' and e.get('op') == '=' and 'rhs' in e:
+            l = strip(e['lhs'])
+            if isinstance(l, dict) and l.get('k') == 'var' and l.get('vk') == 'local' and l.get('ptr') and l.get('record') == 'timespec':
+                kinds = {_deadline_kind(o) for o in org.of(e['rhs'], (e['_b'], e['_i']))}
+                defs.setdefault(l['name'], []).append((e, kinds))
+    names = sorted(n for n, ds in defs.items() if any('soonest' in k for (_, k) in ds))
+    if len(names) != 1:
+        raise AnalysisBroken('%s: expected exactly one struct timespec * parameter (the deadline) or one local that receives the '
+                             'answer of iv_get_soonest_timeout(), found %d / %d' % (root.name, len(ps), len(names)))
+    name = names[0]
+    neutral = {id(e) for (e, k) in defs[name] if k <= {'zeroed-local', 'soonest'}}
+    import copy as _copy
+    g2 = _copy.copy(g)
+    for a in [a for a in g2.__dict__ if a.startswith('_c04')]:
+        del g2.__dict__[a]
+    g2.blocks = {}
+    for b, blk in g.blocks.items():
+        nb = _copy.copy(blk)
+        nb.events = [({'ev': 'load', 'e': e['lhs'], 'loc': e.get('loc'), '_b': e['_b'], '_i': e['_i'], 'chain': e.get('chain') or []}
+                      if id(e) in neutral else e) for e in blk.events]
+        g2.blocks[b] = nb
+    g._c04_request = (name, g2, defs[name])
+    return g._c04_request
 
 
 def _all_exprs(g, copies):
@@ -282,7 +348,7 @@ def keep_armed(ctx, rid='R-C04f'):
     calls method->set_poll_timeout."""
     prog = ctx.prog
     h.bind(prog)
-    cs = h.contexts(prog, _method_poll)
+    cs = h.contexts(prog, _method_poll, stop=REQUEST_STOP)
     # a poll slot that hands the wait on to another table's poll slot (mid-run fallback, C15 R-C15b) forwards
     # its caller's deadline decision; the repeated-deadline logic lives in the callers of the slot
     pollslots = set()
@@ -296,7 +362,7 @@ def keep_armed(ctx, rid='R-C04f'):
         raise AnalysisBroken('no function calls method->poll')
     r1, r2, r3, r4, r5 = [], [], [], [], []
     for (root, g, sites) in cs:
-        absn = _deadline_param(root)
+        absn, g, _ = _request(root, g)
         copies = h.ptr_copies(g)
         rec, written, consts = _repeat_state(g, absn, copies)
         if len(written) != 1:
@@ -1161,61 +1227,109 @@ def strip_load_(x):
 
 
 def deadline(ctx):
+    """Where the deadline of the wait comes from.  The deadline is what the function that waits (calls method->poll) is
+    given as its `struct timespec *` argument -- then its origins are examined in every context that calls it --, or,
+    when that function computes the deadline itself, what it assigns to its deadline pointer (the local that receives the
+    answer of the deadline query, _request) -- then every definition of that local is examined."""
     prog = ctx.prog
     pollers = _pollers(prog)
+    own = []
+    for (root, g, sites) in h.contexts(prog, _method_poll, stop=REQUEST_STOP):
+        if root.name in pollers and not [p_ for p_ in root.params if p_.get('ptr') and p_.get('record') == 'timespec']:
+            own.append((root, g, sites))
 
     def is_poll(e):
         return is_call(e, tuple(pollers))
     cs = h.contexts(prog, is_poll, stop=tuple(_timer_runners(prog)) + tuple(pollers) + ('iv_get_soonest_timeout', 'iv_run_tasks'))
     if not cs:
         raise AnalysisBroken('nothing calls %s' % '/'.join(pollers))
+    ownq = {r.q for (r, _, _) in own}
+    for (root, g, sites) in own:
+        name, _, defs = _request(root, g)
+        kinds = set()
+        for (e, ks) in defs:
+            kinds |= ks
+        ctx.ob('R-C04e', '%s:deadline-definitions' % root.name, kinds == {'zeroed-local', 'soonest'}, loc=defs[0][0]['loc'],
+               detail='what the poll deadline (computed by the waiting function itself) may come from (through locals, helper results and '
+                      'conditional expressions): %s' % sorted(kinds), fn=root.q)
     for (root, g, sites) in cs:
         org = h.Origins(g)
-        kinds, site = set(), sites[0]
+        kinds, site = set(), None
         for s_ in sites:
             # the deadline argument: the timespec pointer argument of the poll call
             tgt = prog.fn(s_['callee'])
+            if tgt.q in ownq:
+                continue
+            site = site or s_
             idx = [i for i, p_ in enumerate(tgt.params) if p_.get('ptr') and p_.get('record') == 'timespec']
             if len(idx) != 1 or idx[0] >= len(s_['args']):
                 raise AnalysisBroken('%s: deadline argument not identified' % s_['callee'])
             for o in org.of(s_['args'][idx[0]], (s_['_b'], s_['_i'])):
-                r = strip(o)
-                v_ = strip(r['e']) if isinstance(r, dict) and r.get('k') == 'addr' else None
-                if isinstance(v_, dict) and v_.get('k') == 'var' and v_.get('record') == 'timespec' and not v_.get('ptr') and \
-                        (v_.get('vk') == 'local' or (v_.get('vk') in ('global', 'staticlocal') and 'const' in (v_.get('type') or '').split())):
-                    # a time value of this function's own (or an immutable one with static storage): "do not wait"
-                    kinds.add('zeroed-local')
-                elif isinstance(r, dict) and r.get('k') == 'call' and r.get('callee') == 'iv_get_soonest_timeout':
-                    kinds.add('soonest')
-                else:
-                    kinds.add('other:' + canon(o))
+                kinds.add(_deadline_kind(o))
+        if site is None:
+            continue
         ctx.ob('R-C04e', '%s:deadline-definitions' % root.name, kinds == {'zeroed-local', 'soonest'}, loc=site['loc'],
                detail='what the poll deadline may come from (through locals, helper results and conditional expressions): %s' % sorted(kinds), fn=root.q)
+    _soonest(ctx)
+
+
+def _soonest(ctx):
+    """What the deadline query answers, by value: the query (helpers inlined) is evaluated along all its paths for timer
+    counts 0, 1, 2 and 9 (h.explore: the count may be tested directly, through a local it was read into, in a conditional
+    expression of the return statement or of a store to a result local, in either branch order); the value that reaches each
+    return is resolved along the path: NULL, the address of the expiry of heap slot 1, or something else."""
+    prog = ctx.prog
     s = prog.fn('iv_get_soonest_timeout')
     g = h.inline_root(prog, s)
     org = h.Origins(g)
-    NT = h.need('num')
-    res = delta_analysis(g, [], discr=[NT])
-    okroot, oknull, nroot, nnull = True, True, 0, 0
-    for (e, d, rc, preds) in res.rets:
-        empty = any(p_[0] == NT and ((p_[1] == '==' and p_[2] == 0) or (p_[1] == '<=' and p_[2] == 0) or (p_[1] == '<' and p_[2] == 1)) for p_ in preds)
-        nonempty = any(p_[0] == NT and ((p_[1] == '!=' and p_[2] == 0) or (p_[1] == '>' and p_[2] == 0) or (p_[1] == '>=' and p_[2] == 1)) for p_ in preds)
-        if rc == ('c', 0):
-            nnull += 1
-            oknull = oknull and empty
-        else:
-            nroot += 1
-            good = nonempty
-            os_ = [o for o in org.of(e['value'], (e['_b'], e['_i'])) if not h.const_of(o) == 0] if 'value' in e else []
-            good = good and bool(os_)
-            for o in os_:
-                r = strip(o)
-                good = good and isinstance(r, dict) and r.get('k') == 'addr' and last_member(r['e']) in (('iv_timer_', 'expires'), ('iv_timer', 'expires')) \
-                    and _is_heap_root(h.member_base(r['e']), org, (e['_b'], e['_i']))
-            okroot = okroot and good
+    h.need('num')
+    copies = h.ptr_copies(g)
+    num_keys = {canon(x) for x0, cp in _all_exprs(g, copies) for x in walk(x0) if x.get('k') == 'member' and h.is_num(x)}
+    # (a query that never reads the count is evaluated all the same: it then answers the same for 0 timers as for 9)
+
+    def kind(v, path, point, depth=0):
+        v = strip(h._through(v, path['ptrs']))
+        while isinstance(v, dict) and v.get('k') == 'cond' and depth < 8:
+            depth += 1
+            try:
+                v = strip(h._through(v['a'] if path['eval'](v['c'], True) else v['b'], path['ptrs']))
+            except interp.Undecided:
+                return 'undecided:' + canon(v)
+        if not isinstance(v, dict):
+            return 'other:?'
+        if h.const_of(v) == 0:
+            return 'null'
+        if v.get('k') == 'addr':
+            if last_member(v['e']) in (('iv_timer_', 'expires'), ('iv_timer', 'expires')) and _is_heap_root(h.member_base(v['e']), org, point):
+                return 'root'
+            return 'other:' + canon(v)
+        if v.get('k') == 'var':
+            if path['env'].get(v['name']) == 0:
+                return 'null'
+            os_ = [strip(o) for o in org.of(v, point)]
+            if os_ and not any(isinstance(o, dict) and o.get('k') == 'var' for o in os_) and depth < 8:
+                ks = {kind(o, path, point, depth + 1) for o in os_ if h.const_of(o) != 0}
+                if len(ks) == 1:
+                    return next(iter(ks))
+        return 'other:' + canon(v)
+    okroot, oknull, nroot, nnull, seen = True, True, 0, 0, set()
+    for n in (0, 1, 2, 9):
+        for path in h.explore(g, ints={k: n for k in num_keys}):
+            if path['end'] != 'ret' or not path['trace'] or 'value' not in path['trace'][-1]:
+                continue
+            e = path['trace'][-1]
+            kd = kind(e['value'], path, (e['_b'], e['_i']))
+            seen.add('%d timers: %s' % (n, kd))
+            if kd == 'null':
+                nnull += 1
+                oknull = oknull and n == 0
+            else:
+                nroot += 1
+                okroot = okroot and kd == 'root' and n != 0
     ctx.ob('R-C04e', 'soonest:heap-root-when-nonempty', okroot and nroot > 0, loc=s.loc,
-           detail='every non-NULL result is the address of the expiry of heap slot 1, returned on paths that saw num_timers != 0', fn=s.q)
-    ctx.ob('R-C04e', 'soonest:null-when-empty', oknull and nnull > 0, loc=s.loc, detail='NULL (no deadline) is returned only on paths that saw num_timers == 0', fn=s.q)
+           detail='every non-NULL result is the address of the expiry of heap slot 1, returned only when num_timers != 0 (evaluated: %s)' % sorted(seen), fn=s.q)
+    ctx.ob('R-C04e', 'soonest:null-when-empty', oknull and nnull > 0, loc=s.loc,
+           detail='NULL (no deadline) is returned only when num_timers == 0 (evaluated: %s)' % sorted(seen), fn=s.q)
 
 
 # ---------------------------------------------------------------------------------------
@@ -1551,3 +1665,122 @@ def earliest(ctx, rid='R-C04h'):
             ctx.ob(rid, '%s:%s' % (cls, kind), bad is None, loc=f.loc, fn=f.q,
                    detail=('%s; %s (%d observations)' % (ktext, text, nrun)) if bad is None
                    else '%s -- violated after the history: %s' % (ktext, bad))
+
+
+# ---------------------------------------------------------------------------------------
+# R-C04i: a timer that was unregistered before its handler ran is not run
+# ---------------------------------------------------------------------------------------
+# Between iv_run_timers() moving the due timers into its batch and the handler call of each of them, handlers of earlier
+# timers of the batch run and may unregister later ones.  "Exactly once unless unregistered first" then rests on two
+# things: iv_timer_unregister() removes the timer from wherever it is kept (heap or batch) on every path on which it
+# returns, and the runner's choice of the next timer to run is made from the batch as it is *after* the latest handler.
+
+HANDLER_MEMBER = (('iv_timer_', 'handler'), ('iv_timer', 'handler'))
+LINKS = (('iv_list_head', 'next'), ('iv_list_head', 'prev'))
+
+
+def _unlinks_expired(e, cp):
+    """the event takes some timer's `list_expired` node out of the list it is in: a list removal primitive (also the fused
+    open-coded form) given that node -- written out or through a pointer local holding its address --, or the open-coded
+    re-linking of a neighbour:  NODE.prev->next = ... / NODE.next->prev = ...  with NODE = X->list_expired"""
+    if is_call(e, ('iv_list_del', 'iv_list_del_init')) and e.get('args'):
+        z = h.deref_target(e['args'][0], cp)
+        return z is not None and last_member(z) in LE_MEMBER
+    if e['ev'] == 'store' and e.get('op') == '=' and 'rhs' in e and last_member(e['lhs']) in LINKS:
+        l = strip(h._through(e['lhs'], {n: v for n, v in cp.items() if isinstance(strip(v), dict) and strip(v).get('k') == 'addr'}))
+        if isinstance(l, dict) and l.get('k') == 'member' and l.get('arrow'):
+            nb = strip_load_(l['base'])                       # the neighbour: NODE.prev / NODE.next
+            if isinstance(nb, dict) and nb.get('k') == 'member' and last_member(nb) in LINKS and nb.get('field') != l.get('field'):
+                node = nb['base'] if not nb.get('arrow') else h.deref_target(nb['base'], cp)
+                return node is not None and last_member(node) in LE_MEMBER
+    return False
+
+
+def _reads_memory(x):
+    """the value is (partly) read from memory: not a constant, an address computation or a copy of locals"""
+    for n in walk(x):
+        if n.get('k') == 'load':
+            t = strip_load_(n)
+            if not (isinstance(t, dict) and t.get('k') == 'var' and t.get('vk') in ('local', 'param') and (t.get('ptr') or not t.get('record'))):
+                return True
+        if n.get('k') == 'call':
+            return True
+    return False
+
+
+def cancelled(ctx, rid='R-C04i'):
+    prog = ctx.prog
+    h.need('num')
+    # (1) unregistered means gone
+    u = prog.fn('iv_timer_unregister')
+    g = h.inline_root(prog, u)
+    copies = h.ptr_copies(g)
+
+    def removal(e):
+        if e['ev'] == 'store' and h.is_num(e['lhs']) and (e.get('op') in ('--', '-=') or (e.get('op') == '=' and 'rhs' in e)):
+            return True
+        return _unlinks_expired(e, copies.get((e['_b'], e['_i']), {}))
+    mp = must_pass(g, removal)
+    outs = [(pb, pi, e) for (pb, pi, e) in exits_of(g)] + ([(g.exit, 0, None)] if (g.exit, 0) in mp else [])
+    bad = [(e or True) for (pb, pi, e) in outs if mp.get((pb, pi)) is False]
+    if not outs:
+        raise AnalysisBroken('%s never returns' % u.name)
+    nrem = sum(1 for e in g.events() if removal(e))
+    ctx.ob(rid, 'iv_timer_unregister:gone-on-return', not bad and nrem > 0, loc=(bad[0].get('loc') if bad and isinstance(bad[0], dict) else None) or u.loc,
+           detail='on every path on which iv_timer_unregister returns, the timer was removed from the heap (timer count lowered) or its list_expired '
+                  'node was unlinked from the batch of expired timers (a timer that iv_run_timers already collected is otherwise still run '
+                  'after it was cancelled); %d removal sites' % nrem,
+           path=None if not bad or not isinstance(bad[0], dict) else path_to(g, bad[0]), fn=u.q)
+    # (2) the runner runs what is in the batch now
+    n = 0
+    for (root, g, links) in _expiry_contexts(prog):
+        org = h.Origins(g)
+        calls = []
+        for e in g.events():
+            if e['ev'] == 'call' and 'fnexpr' in e:
+                cands = [e['fnexpr']] + list(org.of(e['fnexpr'], (e['_b'], e['_i'])))
+                if any(last_member(c) in HANDLER_MEMBER for c in cands if isinstance(c, dict)):
+                    calls.append(e)
+        if not calls:
+            continue
+
+        def user_code(e):
+            return e['ev'] == 'call' and 'fnexpr' in e and (callback_kind(e) or ('', ''))[0] != 'method'
+
+        def tr(e, S):
+            if e['ev'] == 'store':
+                l = strip(e['lhs'])
+                if isinstance(l, dict) and l.get('k') == 'var' and l.get('vk') in ('local', 'param'):
+                    nm = l['name']
+                    rest = frozenset(x for x in S if x[0] != nm)
+                    if e.get('op') == '=' and 'rhs' in e:
+                        used = {y['name'] for y in walk(e['rhs']) if y.get('k') == 'var'}
+                        if any(v in used and st == 'S' for (v, st) in S):
+                            return rest | {(nm, 'S')}
+                        if _reads_memory(e['rhs']) or any(v in used for (v, st) in S):
+                            return rest | {(nm, 'D')}
+                        return rest
+                    return S
+            elif e['ev'] == 'decl':
+                return frozenset(x for x in S if x[0] != e['name'])
+            elif user_code(e):
+                return frozenset((v, 'S') for (v, st) in S)
+            return S
+        _, ev_in = forward(g, frozenset(), tr, lambda a, b: a | b)
+        bysite = {}
+        for c in calls:
+            S = ev_in.get((c['_b'], c['_i']))
+            used = {y['name'] for k_ in ('fnexpr', 'args') for y in walk(c.get(k_, [])) if y.get('k') == 'var'}
+            stale = sorted(v for (v, st) in (S or ()) if st == 'S' and v in used)
+            ok = S is not None and not stale
+            prev = bysite.get(c['loc'], (True, c, []))
+            bysite[c['loc']] = (prev[0] and ok, c, prev[2] + stale)
+        for loc, (ok, c, stale) in sorted(bysite.items()):
+            n += 1
+            ctx.ob(rid, '%s:handler-of-timer-read-from-batch' % root.name, ok, loc=loc,
+                   detail='the timer whose handler is called by %s was read from the batch after the latest user code (a handler) ran, so a timer '
+                          'that the previous handler unregistered (unlinked) is not run%s'
+                          % (describe(c), '' if ok else ': the call uses %s, read before a handler ran' % ', '.join(sorted(set(stale)))),
+                   path=None if ok else path_to(g, c), fn=root.q)
+    if not n:
+        raise AnalysisBroken('no call through a timer\'s handler found in the contexts that expire timers')
